@@ -188,6 +188,16 @@ Definition f_div (x y : expr) : option expr :=
        | Value a, Value b => if b =? 0 then Div x y else Value (Z.quot a b)
        | _, _ => Div x y
        end.
+(* Div after the fix "Div shape inference only folds exact quotients of constant values" (found
+   by C01): constants may stand for float tensors, so a non-exact quotient (and a zero divisor)
+   is left unknown; `checked_rem` is None for i32::MIN % -1 *)
+Definition f_div_x (x y : expr) : option expr :=
+  match x, y with
+  | Value a, Value b =>
+      if (b =? 0) || div_ovf a b then None
+      else if Z.rem a b =? 0 then Some (Value (Z.quot a b)) else None
+  | _, _ => Some (Div x y)
+  end.
 (* Equal: [rg] is SymExpr::range of the code version under check *)
 Definition f_equal (rg : expr -> Z * Z) (x y : expr) : option expr :=
   let (xmin, xmax) := rg x in
@@ -696,7 +706,7 @@ Inductive op :=
 | OOther.                                  (* operator without a model *)
 
 (* code version: which SymExpr::range, and whether this group's fix commits are applied *)
-Record ver := { v_range : expr -> Z * Z; v_fixed : bool }.
+Record ver := { v_range : expr -> Z * Z; v_fixed : bool; v_divx : bool }.
 Definition infer_with (v : ver) (o : op) (ins : list (option symt)) : ires :=
   let rg := v_range v in let fx := v_fixed v in
   match o with
@@ -708,7 +718,7 @@ Definition infer_with (v : ver) (o : op) (ins : list (option symt)) : ires :=
   | OAdd => infer_arith f_add ins
   | OSub => infer_arith f_sub ins
   | OMul => infer_arith f_mul ins
-  | ODiv => infer_arith f_div ins
+  | ODiv => infer_arith (if v_divx v then f_div_x else f_div) ins
   | OEqual => infer_arith (f_equal rg) ins
   | OWhere => infer_where fx ins
   | OShape s e => infer_shape s e ins
@@ -725,9 +735,11 @@ Definition infer_with (v : ver) (o : op) (ins : list (option symt)) : ires :=
   | ORange => infer_range ins
   | OOther => IOk []
   end.
-Definition ver_fixed : ver := {| v_range := range; v_fixed := true |}.       (* all fixes *)
-Definition ver_nof5 : ver := {| v_range := range_old; v_fixed := true |}.     (* without the F5 fix of SymExpr::range *)
-Definition ver_old : ver := {| v_range := range_old; v_fixed := false |}.     (* unchanged tree *)
+Definition ver_fixed : ver := {| v_range := range; v_fixed := true; v_divx := false |}.     (* this group's and C11's fixes *)
+Definition ver_fixed_dx : ver := {| v_range := range; v_fixed := true; v_divx := true |}.   (* ... and C01's Div fix *)
+Definition ver_nof5 : ver := {| v_range := range_old; v_fixed := true; v_divx := false |}.  (* without the F5 fix of SymExpr::range *)
+Definition ver_nof5_dx : ver := {| v_range := range_old; v_fixed := true; v_divx := true |}.
+Definition ver_old : ver := {| v_range := range_old; v_fixed := false; v_divx := false |}.  (* unchanged tree *)
 Definition infer := infer_with ver_fixed.
 Definition infer_old := infer_with ver_old.
 
@@ -1260,7 +1272,9 @@ Definition agree_with (v : ver) (c : case) : bool :=
       | None => true
       end)) (c_insts c).
 Definition agree := agree_with ver_fixed.
+Definition agree_dx := agree_with ver_fixed_dx.
 Definition agree_nof5 := agree_with ver_nof5.
+Definition agree_nof5_dx := agree_with ver_nof5_dx.
 Definition agree_old := agree_with ver_old.
 
 (* the property oracle, on the implementation's outputs only *)
